@@ -2,6 +2,7 @@
 Line-protocol engine `writebatch` (C26).
 op:
   wb <scratch> <isV4> <gso> <maxSeg> <dsts> <pkts> <script>
+  wbq …same arguments…   the batch is queued in an overlay/batch.SendBatch (Reserve, Commit) and sent by Flush
      dsts   : `<addrhex>:<port>;…`            destination table
      pkts   : `<len>@<dstIndex>,…` | `-`       the batch (bufs[k] has len bytes, addrs[k] = dsts[dstIndex])
      script : `<sent>:<ok|eio|other>,…` | `-`  results of the successive sendFn calls (`sent` is capped at the
@@ -147,7 +148,8 @@ def tagOf (pk : List (Pkt Dst)) (isV4 : Bool) (r : Result) (gso0 : Bool) : Strin
 
 def step (s : Unit) (args : List String) (impl : String) : Unit × Out :=
   match args with
-  | ["wb", n, v4, gso, maxSeg, dsts, pkts, script] =>
+  | [op, n, v4, gso, maxSeg, dsts, pkts, script] =>
+    if op != "wb" && op != "wbq" then (s, badOp) else
     match natArg n, natArg v4, natArg gso, intArg maxSeg, parseList ";" parseAddrPort dsts with
     | some n, some v4, some gso, some maxSeg, some dsts =>
       match parseList "," (parsePkt dsts) pkts, parseList "," parseOutcome script with
@@ -169,7 +171,7 @@ def step (s : Unit) (args : List String) (impl : String) : Unit × Out :=
             match Spec.Writebatch.check inp t with
             | some cls => "bad " ++ cls
             | none => "ok"
-        (s, { model := m, verdict := verdict, tag := tagOf pk isV4 r gso })
+        (s, { model := m, verdict := verdict, tag := tagOf pk isV4 r gso ++ (if op == "wbq" then "+q" else "") })
       | _, _ => (s, badOp)
     | _, _, _, _, _ => (s, badOp)
   | _ => (s, badOp)
